@@ -558,6 +558,8 @@ class XPathContext:
                     status = self.item, self.axis
                     self.axis = 'preceding'
                     ancestors = {root}
+                    if isinstance(item, (AttributeNode, NamespaceNode)):
+                        item = root  # the tree walk below stops at the owner element
 
                     while root.parent is not None:
                         if root is self.root and self.document is None:
